@@ -10,6 +10,7 @@ import (
 	"verifharness/hx"
 
 	"github.com/iotaledger/hive.go/ds/onchangemap"
+	"github.com/iotaledger/hive.go/ds/shrinkingmap"
 	"github.com/iotaledger/hive.go/runtime/options"
 )
 
@@ -124,6 +125,10 @@ func classify(err error) string {
 	switch {
 	case err == nil:
 		return "ok"
+	case (strings.Contains(err.Error(), "failed to execute callback in OnChangeMap") || strings.Contains(err.Error(), "failed to execute item callback in OnChangeMap")) &&
+		!errors.Is(err, errInjected):
+		// the callback's own error must stay reachable through errors.Is
+		return "err-unwrapped"
 	case strings.Contains(err.Error(), "already exists"):
 		return "err-exists"
 	case strings.Contains(err.Error(), "does not exist"):
@@ -306,6 +311,27 @@ func (w *ocWorld) exec(f []string) string {
 		return w.answer(res, fmt.Sprintf("%d=%d", k, val))
 	case "all":
 		return w.answer("ok", kvs(w.all()))
+	case "state":
+		return stateOf(func() string {
+			en := fieldAs[bool](w.m, "callbacksEnabled")
+			if en != w.enabled {
+				w.fail("callbacks-mirror", fmt.Sprintf("callbacksEnabled=%v want %v", en, w.enabled), w.sig("state", "enabled"))
+			}
+			stored := map[int]int{}
+			for k, it := range fieldAs[*shrinkingmap.ShrinkingMap[int, *ocItem]](w.m, "m").AsMap() {
+				if it == nil || k != int(it.id) {
+					w.fail("keyed-store", fmt.Sprintf("the map stores %+v under key %d", it, k), w.sig("state", "key-id"))
+
+					continue
+				}
+				stored[k] = it.value
+			}
+			if kvs(stored) != kvs(w.store) {
+				w.fail("keyed-store", fmt.Sprintf("the map stores %s want %s", kvs(stored), kvs(w.store)), w.sig("state", "contents"))
+			}
+
+			return fmt.Sprintf("enabled=%s %s", b01(en), kvs(stored))
+		})
 	case "exec":
 		w.failC = flag(f[1])
 		res := classify(w.m.ExecuteChangedCallback())
@@ -331,7 +357,7 @@ func (w *ocWorld) checkErr(api, res string, changed, installed bool) {
 	if res == "err-changed" || res == "err-item" {
 		w.cbErrors++
 	}
-	if (res == "err-changed" || res == "err-item" || res == "ok") && res != want {
+	if (res == "err-changed" || res == "err-item" || res == "ok" || res == "err-unwrapped") && res != want {
 		w.fail("callbacks-mirror", fmt.Sprintf("%s answered %s want %s", api, res, want), w.sig(api, "callback-error"))
 	}
 }
@@ -380,8 +406,11 @@ var ocContainer = container{
 			default:
 				ops = append(ops, fmt.Sprintf("oc enable %s", b01(rng.Chance(3, 4))))
 			}
+			if rng.Chance(1, 4) {
+				ops = append(ops, "oc state")
+			}
 		}
-		ops = append(ops, "oc all")
+		ops = append(ops, "oc all", "oc state")
 
 		return ops
 	},
